@@ -1810,6 +1810,8 @@ def run_ecdsa_dsa(ctx, ossl):
                          ("range", asn1_seq(asn1_int(r_ + order) + asn1_int(s_)), dg), ("range", asn1_seq(asn1_int(r_) + asn1_int(s_ + order)), dg),
                          ("range", asn1_seq(asn1_int(order) + asn1_int(s_)), dg), ("range", asn1_seq(asn1_int(r_) + asn1_int(order)), dg),
                          ("swapped", asn1_seq(asn1_int(s_) + asn1_int(r_)), dg),
+                         ] + [("degenerate-r-s", asn1_seq(asn1_int(a) + asn1_int(b)), dg)
+                              for a in (0, 1, 2, order - 1, order) for b in (0, 1, 2, order - 1, order)] + [
                          ("malleable-n-minus-s", asn1_seq(asn1_int(r_) + asn1_int(order - s_)), dg),
                          ("raw-r||s", r_.to_bytes((order.bit_length() + 7) // 8, "big") + s_.to_bytes((order.bit_length() + 7) // 8, "big"), dg)]
             d2 = bytearray(dg)
@@ -2432,6 +2434,8 @@ def run_dsa_model(ctx):
                 lines.append("dsasign %s %s %s" % (kl, nh(nonce), hx(data))); exp.append("%s %s" % (nh(rs[0]), nh(rs[1])))
                 cands = [(rs[0], rs[1]), (rs[0], q_ - rs[1]), (rs[0] + q_, rs[1]), (rs[0], rs[1] + q_), (0, rs[1]), (rs[0], 0), (q_, rs[1]),
                          (rs[0], q_), (rs[1], rs[0]), (rs[0] ^ 1, rs[1]), (rs[0], rs[1] ^ 1), (rng.randrange(1, q_), rng.randrange(1, q_))]
+                if rep_i == 0 and dl in (20, 32):
+                    cands += [(a, b) for a in (0, 1, 2, q_ - 1, q_) for b in (0, 1, 2, q_ - 1, q_)]
                 for r2, s2 in cands:
                     sig2 = asn1_seq(asn1_int(r2) + asn1_int(s2))
                     v = call(k.verify, bytearray(sig2), bytearray(data))
